@@ -15,7 +15,8 @@ LEVEL = 'exploration'
 RULE = ('workbooks with 1-4 sheets (titles with blanks, digits, non-ASCII), 1-6 suspicious cells (lower-case identifier '
         'immediately followed by a parenthesised argument list, in constants and inside formulas, one or two fragments per '
         'cell) and 0-20 innocent cells (upper-case Excel calls, text with a blank before the bracket, numbers, dates) at random '
-        '(sheet, column <= AAA, row <= 2000) - in particular row != position within its row; gate enabled and disabled; plus '
+        '(sheet, column <= AAA, row <= 2000) - in particular row != position within its row; half of the suspicious texts repeated in '
+        'the same row / same column / same address of another sheet; gate enabled and disabled; plus '
         'all-innocent workbooks. Non-trivial: a planted suspicious cell whose row differs from its 1-based position in the '
         'row and from 1; distinct by (workbook index, cell)')
 ASSUMPTIONS = ['cells mixing upper-case calls and lower-case calls in one text are not generated (outside the precondition)',
@@ -52,6 +53,7 @@ def make_workbook(rng, n_susp, n_inn):
     sheets = [{} for _ in range(ns)]
     planted = {}
     used = set()
+    clones = []
 
     def place():
         while True:
@@ -67,6 +69,26 @@ def make_workbook(rng, n_susp, n_inn):
         text, frags = make_suspicious(rng, rng.random() < 0.3)
         sheets[s][wbspec.a1(row, col)] = text
         planted[(s, row, col)] = frags
+    # the same suspicious text again: in the same row, in the same column, at the same address of another sheet
+    # (a report keyed by value or by position-in-row would merge or misplace such cells)
+    for (s, row, col), frags in list(planted.items()):
+        if rng.random() < 0.5:
+            continue
+        text = sheets[s][wbspec.a1(row, col)]
+        for _ in range(rng.randrange(1, 3)):
+            mode = rng.choice(['row', 'row', 'col', 'sheet'])
+            if mode == 'row':
+                key = (s, row, rng.randrange(1, 40))
+            elif mode == 'col':
+                key = (s, rng.randrange(1, 60), col)
+            else:
+                key = (rng.randrange(ns), row, col)
+            if key in used:
+                continue
+            used.add(key)
+            sheets[key[0]][wbspec.a1(key[1], key[2])] = text
+            planted[key] = frags
+            clones.append(mode)
     for _ in range(n_inn):
         s, row, col = place()
         sheets[s][wbspec.a1(row, col)] = rng.choice(INNOCENT)
@@ -74,7 +96,7 @@ def make_workbook(rng, n_susp, n_inn):
         sheets[s].setdefault('A1', 1)
     spec = wbspec.spec(*[wbspec.sheet(t, c) for t, c in zip(titles, sheets)])
     expected = {f"'{titles[s]}'{get_column_letter(col)}{row}": frags for (s, row, col), frags in planted.items()}
-    return spec, expected, planted
+    return spec, expected, planted, clones
 
 
 def plan(tier, seed):
@@ -137,7 +159,9 @@ def run_shard(shard, ctx):
     for i in range(shard['n']):
         innocent_only = rng.random() < 0.2
         n_s = 0 if innocent_only else rng.randrange(1, 7)
-        spec, expected, planted = make_workbook(rng, n_s, rng.randrange(0, 21))
+        spec, expected, planted, clones = make_workbook(rng, n_s, rng.randrange(0, 21))
+        for m in clones:
+            r.count('duplicate_text_clones:' + m)
         on, off, SE = observe(spec, ctx.workdir, f'w{i}')
         judge(r, spec, expected, planted, on, off, SE, (ctx.shard_index, i))
         if i == 0:
